@@ -24,7 +24,7 @@ import (
 	"github.com/dolthub/dolt/go/zzverif/vsql"
 )
 
-const c26Rule = "case = generated schema (1-3 tables; int/decimal/float/string(3 collations)/binary/date/time/enum/text columns; single, composite, prefix and unique secondary indexes, some built after load) + rows + DML/commit rounds + queries from a grammar (filters =,<>,<,<=,>,>=,<=>,BETWEEN,IN,IS NULL,LIKE prefix,NOT, nested AND/OR; ORDER BY total order with LIMIT/OFFSET; COUNT(*); GROUP BY + COUNT/SUM/MIN/MAX; DISTINCT; 2-3 table inner/left joins with hints; AS OF earlier commits); each query is one evaluation, described by schema signature + query text. Non-trivial = dolt's EXPLAIN PLAN shows an index range scan (IndexedTableAccess with a bounded range), a LookupJoin or a MergeJoin, and the result is non-empty and (single-table queries) smaller than the table."
+const c26Rule = "case = generated schema (1-3 tables; int/decimal/float/string(3 collations)/binary/date/time/enum/text columns; single, composite, prefix and unique secondary indexes, some built after load) + rows + DML/commit rounds + queries from a grammar (filters =,<>,<,<=,>,>=,<=>,BETWEEN,IN,IS NULL,LIKE prefix,NOT, nested AND/OR; ORDER BY total order with LIMIT/OFFSET; COUNT(*), also over IN lists / ORs of ranges that mix present and absent index values; GROUP BY + COUNT/SUM/MIN/MAX; DISTINCT; 2-3 table inner/left joins with hints, lookup joins driven by a multi-range index scan; AS OF earlier commits); each query is one evaluation, described by schema signature + query text. Non-trivial = dolt's EXPLAIN PLAN shows an index range scan (IndexedTableAccess with a bounded range), a LookupJoin or a MergeJoin, and the result is non-empty and (single-table queries) smaller than the table."
 
 var c26Assumptions = []string{
 	"reference = stock go-mysql-server engine over memory tables created with the same DDL (same keys and indexes) and loaded with the same statements; both engines share go-mysql-server's parser, analyzer and expression evaluation, so the comparison isolates dolt's storage, index range conversion, kv join executors, count fast path and AS OF resolution",
@@ -54,6 +54,7 @@ var c26Assumptions = []string{
 	"grammar exclusion (go-mysql-server bug shared by both engines): GROUP BY takes at most one string/binary column, because the grouping key concatenates the values and ('', ' ') collides with (' ', ''); skipped group columns are counted as excluded_known",
 	"while finding " + c26FindMergeKeylessCI + " is listed open, a disagreement on a join that involves a keyless table and a collated key column and whose dolt plan contains a MergeJoin is attributed to it (counted as excluded_known); the pinned sub-test reports it",
 	"while finding " + c26FindHashJoinExtra + " is listed open (not minimised, replays saved), a disagreement on a join with a collated key column or a BIGINT = BIGINT UNSIGNED key whose dolt plan contains a HashLookup and where dolt returns more rows than the reference is attributed to it (counted as excluded_known)",
+	"while findings " + c26FindCountColIndex + " / " + c26FindLeftOnLiteral + " are listed open (not minimised, replays saved), disagreements of exactly their plan shapes (COUNT(col) over an unfiltered index scan; LEFT JOIN with a literal comparison in ON run as LeftOuterLookupJoin/LeftOuterHashJoin returning more rows) are attributed to them (counted as excluded_known)",
 	"while finding " + c26FindKeylessCount + " is listed open, `SELECT COUNT(col) FROM <keyless table>` is not generated (counted as excluded_known); the pinned sub-test reports it",
 }
 
@@ -606,6 +607,15 @@ func c26PinnedMergeKeylessCI(t *testing.T, srv *vsql.Server, admin *vsql.Session
 	return ""
 }
 
+// c26FindCountColIndex: thorough-tier disagreement, not minimised: COUNT(col) through the kv count
+// fast path over a (multi-range) secondary index scan differs from the reference (107 vs 95).
+const c26FindCountColIndex = "C26-count-column-over-index-scan-unminimised"
+
+// c26FindLeftOnLiteral: thorough-tier disagreements, not minimised: LEFT JOIN with an extra
+// comparison of an inner column with a literal in ON, executed as LeftOuterLookupJoin or
+// LeftOuterHashJoin, returns more rows than the reference (outer rows repeated).
+const c26FindLeftOnLiteral = "C26-leftjoin-on-literal-extra-rows-unminimised"
+
 // c26FindHashJoinExtra: thorough-tier disagreements, not minimised: hash joins (same plan in both
 // engines) on a collated key or on BIGINT = BIGINT UNSIGNED where dolt returns MORE rows than the
 // reference (e.g. 9223372036854775807 joined to 9223372036854775808). Evidence: saved replays.
@@ -757,6 +767,41 @@ func (c *qCase) runQuery(q qQuery) {
 		if multi && strings.Contains(strings.ToUpper(dsql), " IN (") && ((isCount && dn > mn) || (!isCount && qOnly(mr, dr) == "" && qSameSet(dr, mr))) {
 			c.rec.Excluded(1)
 			c.rec.Class("known:"+c26FindCIRanges, 1)
+			return
+		}
+	}
+	if mismatch && q.has("count_column_over_index") && vh.OpenFinding("C26", c26FindCountColIndex) {
+		dp, _ := plan()
+		pt := strings.Join(dp, "\n")
+		if strings.Contains(pt, "IndexedTableAccess") && !strings.Contains(pt, "Filter") {
+			c.rec.Excluded(1)
+			c.rec.Class("known:"+c26FindCountColIndex, 1)
+			return
+		}
+	}
+	if mismatch && q.has("literal_in_on") && strings.Contains(dsql, "LEFT JOIN") && vh.OpenFinding("C26", c26FindLeftOnLiteral) {
+		dp, _ := plan()
+		pt := strings.Join(dp, "\n")
+		more := len(dr.Data) > len(mr.Data)
+		if len(dr.Data) == 1 && len(mr.Data) == 1 && q.Form == "joincount" {
+			var dn, mn int
+			fmt.Sscan(dr.Data[0][0], &dn)
+			fmt.Sscan(mr.Data[0][0], &mn)
+			more = dn > mn
+		}
+		if (strings.Contains(pt, "LeftOuterLookupJoin") || strings.Contains(pt, "LeftOuterHashJoin")) && more {
+			c.rec.Excluded(1)
+			c.rec.Class("known:"+c26FindLeftOnLiteral, 1)
+			return
+		}
+	}
+	if mismatch && q.Form == "group" && q.has("prefix_index_table") && vh.OpenFinding("C26", c26FindPrefixOverlap) {
+		dp, _ := plan()
+		pt := strings.Join(dp, "\n")
+		if strings.Contains(pt, "IndexedTableAccess") && strings.Contains(pt, "}, {") && len(dr.Data) == len(mr.Data) {
+			// the same groups with larger counts: rows delivered once per overlapping range
+			c.rec.Excluded(1)
+			c.rec.Class("known:"+c26FindPrefixOverlap, 1)
 			return
 		}
 	}
@@ -1119,7 +1164,7 @@ func TestVerif_C26(t *testing.T) {
 	})
 	maxRows := vh.N(120, 300)
 	nQueries := vh.N(45, 60)
-	vh.Check(t, "diff", 40, 60, func(rt *rapid.T) {
+	vh.Check(t, "diff", 100, 60, func(rt *rapid.T) {
 		db := srv.NewDBName()
 		admin.MustExec(rt, "CREATE DATABASE "+db)
 		defer admin.Exec("DROP DATABASE " + db)
